@@ -207,6 +207,9 @@ impl Runner {
   pub fn reset_event(&mut self) {
     let jubilee = match self.sc.chain.as_str() {
       "regtest" => 110,
+      "signet" => 175392,
+      "mainnet" => 824544,
+      "testnet" => 2544192,
       _ => 0,
     };
     let flags = self.flags_json();
@@ -264,6 +267,24 @@ impl Runner {
             self.insc_labels.push(e.label.clone());
           }
         }
+      }
+      Step::Skip { prefix, n, keep } => {
+        let first = self.node.height() + 1;
+        let mut kept = Vec::new();
+        for i in 0..*n {
+          let b = BlockSpec {
+            id: format!("{prefix}{i}"),
+            txs: Vec::new(),
+            cb: vec![OutSpec { v: SUBSIDY_UNITS, t: "tr".into(), s: (i % 4) as u32 }],
+          };
+          self.node.push_block(&b);
+          if i + keep >= *n {
+            let label = format!("c{prefix}{i}:0");
+            self.note_out(label.clone(), &b.cb[0]);
+            kept.push(json!({"label": label, "h": first + i, "s": i % 4}));
+          }
+        }
+        self.emit(json!({"e": "Skip", "k": n, "first": first, "outs": kept}));
       }
       Step::Pop { n } => {
         self.node.pop(*n);
@@ -368,9 +389,10 @@ impl Runner {
           self.emit(p);
         }
         let count = self.index().block_count()?;
-        let indexed = self.indexed_ids()?;
+        let lists = self.opts.protocol || self.opts.digest_only;
+        let indexed = if lists { self.indexed_ids()? } else { Vec::new() };
         let flagged = self.index().verif_unrecoverably_reorged();
-        let chain = self.chain_ids();
+        let chain = if lists { self.chain_ids() } else { Vec::new() };
         self.emit(json!({"e": "Update", "result": result, "text": text, "count": count,
           "indexed": indexed, "chain": chain, "flagged": flagged}));
       }
@@ -383,7 +405,7 @@ impl Runner {
           Vec::new()
         };
         let tail: Vec<Value> = protocol.iter().rev().take(6).rev().cloned().collect();
-        let chain = self.chain_ids();
+        let chain = if self.opts.protocol || self.opts.digest_only { self.chain_ids() } else { Vec::new() };
         self.emit(json!({"e": "Update", "result": "hang", "text": "", "count": 0,
           "indexed": [], "chain": chain, "flagged": false, "tail": tail}));
       }
@@ -951,7 +973,7 @@ impl Runner {
     let mut ev = json!({
       "e": "State",
       "count": count,
-      "indexed": self.indexed_ids()?,
+      "indexed": if self.opts.digest { self.indexed_ids()? } else { Vec::new() },
       "outs": outs,
       "unknownOuts": unknown_outs,
       "unknownRuneOuts": unknown_rune_outs,
